@@ -13,7 +13,8 @@ package main
 // Families (all with distinct fallback timestamps, so that an unparsed record shows too):
 //   xf-same-slot   pooled records of ONE size class, same PRI width, same timestamp shape (hence the time value and
 //                  its zone suffix occupy the same bytes of the recycled buffer), different instants / zones, exact
-//                  repeats, same zone with other instant, same instant with other zone; one record per batch, one P
+//                  repeats, same zone with other instant, same instant with other zone, unparsable values of the same
+//                  shape (they keep the fallback timestamp and are counted as errors); one record per batch, one P
 //                  and no GC: every record is serialized and released before the next is parsed into the same buffer
 //   xf-mixed       shapes, PRI widths and size classes vary, short (unpooled) records and unparsable time values in
 //                  between, batches of 1-3, GC forced or not, other transformations after parseTime, 1-3 outputs
@@ -128,12 +129,12 @@ func c12GenXfState(g *Gen) {
 	}
 
 	// ---- xf-same-slot ----
-	for i := 0; i < g.Pick(70, 3000); i++ {
+	for i := 0; i < g.Pick(45, 3000); i++ {
 		b := c12NewPipe(r)
 		pc := b.pc
 		pc.GC = 0
 		pc.NOut = r.PickInt([]int{1, 1, 2})
-		pc.MinPool = r.PickInt([]int{48, 64, 100, 1024})
+		pc.MinPool = r.PickInt([]int{48, 64, 100, 48, 64, 1024})
 		pc.MaxMsg, pc.MaxRec = 3000, 3256
 		pc.Extract = delExtra
 		if r.Chance(1, 3) {
@@ -182,6 +183,24 @@ func c12GenXfState(g *Gen) {
 				prev := seen[r.Intn(len(seen))]
 				tl := len(b.tsLocal(sh.frac))
 				ts = prev[:tl] + b.tsZone(sh.zone)
+			case r.Chance(1, 7):
+				// unparsable value of the same shape (same bytes of the buffer): a separator, a digit or the zone is wrong
+				t := []byte(b.tsOfShape(sh))
+				switch k := r.Intn(3); {
+				case k == 0:
+					t[r.PickInt([]int{4, 7, 10, 13, 16})] = '_'
+				case k == 1 && sh.zone >= 1 && sh.zone <= 4:
+					t[len(t)-r.Range(1, 2)] = 'x'
+				case sh.zone >= 1 && sh.zone <= 4:
+					z := len(t) - 5
+					if sh.zone <= 2 {
+						z = len(t) - 6
+					}
+					t[z+1], t[z+2] = '2', '5' // hour 25
+				default:
+					t[10] = 't'
+				}
+				ts = string(t)
 			default:
 				ts = b.tsOfShape(sh)
 			}
@@ -193,7 +212,7 @@ func c12GenXfState(g *Gen) {
 	}
 
 	// ---- xf-mixed ----
-	for i := 0; i < g.Pick(60, 2500); i++ {
+	for i := 0; i < g.Pick(35, 2500); i++ {
 		b := c12NewPipe(r)
 		pc := b.pc
 		pc.MaxMsg, pc.MaxRec = 3000, 3256
@@ -245,13 +264,13 @@ func c12GenXfState(g *Gen) {
 	}
 
 	// ---- xf-zones: many distinct zones through one instance ----
-	for i := 0; i < g.Pick(2, 12); i++ {
+	for i := 0; i < g.Pick(1, 12); i++ {
 		b := c12NewPipe(r)
 		pc := b.pc
 		pc.GC, pc.NOut, pc.MinPool, pc.MaxMsg, pc.MaxRec = 0, 1, 64, 400, 500
 		pc.Extract = delExtra
 		pc.Outs = []c12Out{{Env: []int{3}}}
-		n := g.Pick(160, 700)
+		n := g.Pick(120, 700)
 		for j := 0; j < n; j++ {
 			k := r.Intn(1500)
 			sign := "+"
@@ -266,7 +285,7 @@ func c12GenXfState(g *Gen) {
 	}
 
 	// ---- xf-default: the production threshold ----
-	for i := 0; i < g.Pick(4, 150); i++ {
+	for i := 0; i < g.Pick(3, 150); i++ {
 		b := c12NewPipe(r)
 		pc := b.pc
 		pc.GC, pc.MinPool, pc.MaxMsg, pc.MaxRec = 0, 1024, 3000, 3256
